@@ -29,6 +29,9 @@ plus call / return / callout marks.  Checked on every run:
      consumed, the model ends in the recorded final words with every list empty, every item started once in id order; the
      boolean invariant HLaneR_proofs.inv_b (proved true on reachable states) is evaluated on the replayed states.
 Failures of (b) are concrete failing inputs (seed, perturbation, round); (a), (c), (d), (e) are broken ties."""
+import glob
+import os
+
 import common
 import conc
 import driver
@@ -41,11 +44,19 @@ LEVEL = "proof"
 TRUSTED = [
     "protocol theorems (Properties_C03_hlane.v) over ALL forests and ALL interleavings for hierarchies of SERIAL lanes under "
     "dispatch_async (Model/HLane.v: its dq_state steps are the regenerated bodies; its list, root-queue and control-stack steps "
-    "are hand-modelled and tied by the trace checks (a)-(d) of lib/props/c03_hlane.py); concurrent inner queues, dispatch_sync "
+    "are hand-modelled and tied by the trace checks (a)-(e) of lib/props/c03_hlane.py); concurrent inner queues, dispatch_sync "
     "through levels, workloop bottoms, retargeting and suspension are outside that model",
-    "sequentially consistent interleaving of atomic steps (the C11 memory model is not formalised)",
+    "sequentially consistent interleaving of atomic steps (the C11 memory model is not formalised); an os_atomic_rmw_loop is ONE "
+    "model step (its successful compare-exchange) and a wait for an enqueuer is a disabled step: the 'no livelock' bound counts "
+    "model actions, so livelock by CAS retries or spinning is excluded by construction of the model, not by the theorem",
+    "the whole-round replay (e) is a run-time tie, not a theorem: trace inclusion is established by the executable HLaneR.try_act / "
+    "sched plus the UNTRUSTED Python abstraction of recorded events into model actions (lib/hlane_replay.py); the exported "
+    "C03_hlane_replay_reach only says that replayed states are reachable, and inv_b on replayed states is true by theorem: its "
+    "evaluation is a consistency check of the replay machinery, it cannot expose a library defect by itself",
     "the recorder's global tickets (harness/dv_record.h) order events of different threads only approximately; every verdict "
     "uses per-thread program order, value chains (old/new words, old/new tail pointers) or tickets taken inside callouts",
+    "the generated-function ids used to locate program points (1 drain_try_lock, 6 drain_try_unlock, 23 its DIRTY xor, 18 wakeup, "
+    "17 invoke_finish in Gen_dqstate.dqstate_site_table) are checked on every run against HLane.w_* through Gen_dqstate.dqstate_apply",
 ]
 ASSUMPTIONS = ["the stress runs explore the schedules the OS and the perturbation hook produce"]
 
@@ -55,13 +66,63 @@ FN_CODE = {1: 1, 6: 2, 23: 3, 18: 4, 17: 5}            # generated function id (
 CODE_NAME = {1: "drain_try_lock", 2: "drain_try_unlock", 3: "xor DIRTY", 4: "wakeup", 5: "invoke_finish"}
 
 
-def site_table():
-    ok, vals, raw = driver.coq_eval("c03_hlane_sites", ["Word", "Gen_consts", "Gen_dqstate"],
-                                    "Eval vm_compute in dqstate_site_table.\n")
-    if not ok or not vals:
+def cname(ctx, base):
+    """.cache/cases file names carry the property tag and the pid: C03 and C03_HLANE may run this module concurrently"""
+    return "%s_%d_%s" % (getattr(ctx, "pid", "c03").lower(), os.getpid(), base)
+
+
+def cleanup(ctx):
+    for f in glob.glob(os.path.join(common.CACHE, "cases", "*" + cname(ctx, "") + "*")):
+        try:
+            os.remove(f)
+        except OSError:
+            pass
+
+
+def coq_eval_robust(name, imports, body, timeout, notes=None):
+    """a wall-clock limit never decides by itself: on expiry the unit is run once more, alone, with ten times the limit"""
+    ok, vals, raw = driver.coq_eval(name, imports, body, timeout=timeout)
+    if not ok and "TIMEOUT after" in raw:
+        if notes is not None:
+            notes.append("Coq evaluation %s hit its %d s limit (load?): re-run alone with %d s" % (name, timeout, 10 * timeout))
+        ok, vals, raw = driver.coq_eval(name + "_again", imports, body, timeout=10 * timeout)
+    return ok, vals, raw
+
+
+ID_CHECK = """
+Definition same (a : option rmw_outcome) (b : rmw_outcome) : bool :=
+  match a, b with
+  | Some (Commit n r), Commit n' r' => (n =? n') && (r =? r')
+  | Some (NoCommit r _), NoCommit r' _ => r =? r'
+  | Some (Restart _), Restart _ => true
+  | _, _ => false
+  end.
+Definition words := [9005000231485440; 9005068950962176; 9005552134782976; 27021599911706632 + 77; 27022149667520520 + 77; 9005002378969088].
+Eval vm_compute in map (fun w => b2z (
+  same (dqstate_apply 1 [0; 0; 1; 77; 3; 0] w) (w_lock 77 3 w) &&
+  same (dqstate_apply 6 [0; OWNED; 1] w) (w_unlock OWNED w) &&
+  same (dqstate_apply 17 [0; 0; 0; OWNED; ENQUEUED] w) (w_finish OWNED w) &&
+  same (dqstate_apply 18 [0; 2; 3; 1; ENQUEUED] w) (w_wake 2 true w) &&
+  same (dqstate_apply 18 [0; 5; 1; 1; ENQUEUED] w) (w_wake 5 false w) &&
+  same (dqstate_apply 23 [] w) (Commit (w_xor w) 0))) words.
+"""
+
+
+def site_table(ctx):
+    """Gen_dqstate.dqstate_site_table as [(file, lo, hi, kind, fn)], after checking that the generated-function ids this
+    module relies on still name the bodies the model calls (dqstate_apply id args = HLane.w_* on sample words)"""
+    ok, vals, raw = coq_eval_robust(cname(ctx, "sites"), ["Word", "Gen_consts", "Gen_dqstate", "HLane"],
+                                    "Eval vm_compute in dqstate_site_table.\n" + ID_CHECK, 300)
+    if not ok or len(vals) != 2:
         raise RuntimeError("cannot read Gen_dqstate.dqstate_site_table: " + raw[-1500:])
+    chk = driver.ints(vals[1])
+    if len(chk) != 6 or any(v != 1 for v in chk):
+        raise RuntimeError("the generated-function ids 1/6/17/18/23 of Gen_dqstate.dqstate_apply no longer name the bodies HLane.w_lock/"
+                           "w_unlock/w_finish/w_wake/w_xor call (targets reordered?): %s" % chk)
     xs = driver.ints(vals[0])
-    return [tuple(xs[i:i + 5]) for i in range(0, len(xs) - len(xs) % 5, 5)]      # (file, lo, hi, kind, fn)
+    if not xs or len(xs) % 5:
+        raise RuntimeError("unexpected shape of dqstate_site_table")
+    return [tuple(xs[i:i + 5]) for i in range(0, len(xs), 5)]      # (file, lo, hi, kind, fn)
 
 
 class Run:
@@ -347,8 +408,8 @@ def analyse(run, sites, tag):
     return cases, mism, fails, dist
 
 
-def coq_judge(name, cases):
-    """evaluate HLane.word_step on the distinct cases; returns the set of distinct keys that do NOT conform"""
+def coq_judge(ctx, cases, notes=None):
+    """evaluate HLane.word_step on the distinct cases; returns (distinct keys, the set of keys that do NOT conform)"""
     keys = sorted(set(c[:7] for c in cases))
     bad = set()
     for c0 in range(0, len(keys), 2500):
@@ -356,7 +417,7 @@ def coq_judge(name, cases):
         body = "Definition cases : list (Z * Z * Z * Z * Z * Z * Z) := [\n" + ";\n".join(
             "(%d, %d, %d, %d, %d, %d, %d)" % k for k in part) + "].\n"
         body += "Eval vm_compute in map (fun '(code, a, b, c, d, old, new) => if word_step code a b c d old =? new then 1 else 0) cases.\n"
-        ok, vals, raw = driver.coq_eval("%s_%d" % (name, c0), ["Word", "Gen_consts", "Gen_dqstate", "HLane"], body)
+        ok, vals, raw = coq_eval_robust(cname(ctx, "words_%d" % c0), ["Word", "Gen_consts", "Gen_dqstate", "HLane"], body, 600, notes)
         if not ok or len(vals) != 1:
             raise RuntimeError("Coq evaluation of HLane.word_step failed: " + raw[-2000:])
         xs = driver.ints(vals[0])
@@ -373,55 +434,68 @@ PCNAME = {0: "idle", 1: "PA_xchg", 2: "PA_link", 3: "PA_link(was empty)", 4: "PA
 REPLAY_IMPORTS = ["Word", "Conc", "Gen_consts", "Gen_dqstate", "HLane", "HLane_inv", "HLaneR", "HLaneR_proofs"]
 
 
-def replay_runs(ctx, runs, sites, every):
-    """(e): runs = [(tag, Run)]; returns (mismatches, distribution, actions replayed)"""
+def replay_runs(ctx, runs, sites, every, notes=None):
+    """(e): runs = [(tag, params, Run)]; returns (mismatches, distribution, actions replayed)"""
     from concurrent.futures import ThreadPoolExecutor
     mism, dist, jobs = [], {}, []
 
     def bump(k, n=1):
         dist[k] = dist.get(k, 0) + n
 
-    for ri, (tag, run) in enumerate(runs):
+    def mm(what, P, **kw):
+        mism.append(dict(dict({"what": what, "cls": "e"}, **P), **kw))
+
+    for ri, (tag, P, run) in enumerate(runs):
         bodies, meta = [], []
         for rnd in sorted(run.rounds):
             if not run.rounds[rnd]["idle"]:
+                bump("rounds not replayed (the round did not go idle: reported as a failure)")
                 continue
             try:
                 rows, acts, info = hlane_replay.round_actions(run, rnd, sites)
             except hlane_replay.Abort as e:
-                mism.append({"what": "(e) round %d cannot be abstracted into model actions: %s" % (rnd, e), "run": tag})
+                mm("(e) round %d cannot be abstracted into model actions: %s" % (rnd, e), P, run=tag, round=rnd)
                 continue
             body, n = hlane_replay.coq_body("r%d" % rnd, rows, acts, chk="inv_b", every=every)
             bodies.append(body)
             meta.append((rnd, rows, acts, info, n))
         if bodies:
-            jobs.append((ri, tag, run, "".join(bodies), meta))
+            jobs.append((ri, tag, P, run, "".join(bodies), meta))
 
     def one(job):
-        ri, tag, run, text, meta = job
-        return job, driver.coq_eval("c03_hlane_replay_%d" % ri, REPLAY_IMPORTS, hlane_replay.PRELUDE + text, timeout=600)
+        ri, tag, P, run, text, meta = job
+        return job, driver.coq_eval(cname(ctx, "replay_%d" % ri), REPLAY_IMPORTS, hlane_replay.PRELUDE + text, timeout=600)
 
     with ThreadPoolExecutor(max_workers=4) as ex:
         results = list(ex.map(one, jobs))
     total = 0
-    for (ri, tag, run, text, meta), (ok, vals, raw) in results:
+    for job, (ok, vals, raw) in results:
+        ri, tag, P, run, text, meta = job
+        if not ok and "TIMEOUT after" in raw:
+            # load, not a verdict: once more, alone, with ten times the limit
+            if notes is not None:
+                notes.append("replay of %s hit its 600 s limit (load?): re-run alone with 6000 s" % tag)
+            ok, vals, raw = driver.coq_eval(cname(ctx, "replay_%d_again" % ri), REPLAY_IMPORTS, hlane_replay.PRELUDE + text, timeout=6000)
         if not ok or len(vals) != len(meta):
-            mism.append({"what": "(e) Coq evaluation of the replay failed", "run": tag, "detail": raw[-1500:]})
+            mm("(e) Coq evaluation of the replay failed (%d results for %d rounds)" % (len(vals), len(meta)), P, run=tag, detail=raw[-1500:])
             continue
         for (rnd, rows, acts, info, n), v in zip(meta, vals):
             xs = driver.ints(v)
+            if len(xs) != 10 + 6 * len(rows):
+                mm("(e) replay of round %d returned %d numbers, %d expected" % (rnd, len(xs), 10 + 6 * len(rows)), P, run=tag, round=rnd)
+                continue
             tbl_ok, done, left, bad, idle, stuck, remain, mlen, mlane, mpc = xs[:10]
             per = [xs[10 + 6 * i:16 + 6 * i] for i in range(len(rows))]
             bump("rounds replayed")
             bump("model actions replayed", done)
             bump("hidden steps among them (plain reads, tail calls, untracked link stores)", info["hidden steps"])
-            bump("states on which inv_b was evaluated", done // every + 1)
+            bump("states on which inv_b was evaluated (consistency check of the replay)", done // every + 1)
             total += done
             if not tbl_ok:
-                mism.append({"what": "(e) the forest table of round %d is not a forest (forest_ok fails)" % rnd, "run": tag})
+                mm("(e) the forest table of round %d is not a forest (forest_ok fails)" % rnd, P, run=tag, round=rnd)
             if left:
                 a = None
-                if stuck in acts and remain <= len(acts[stuck]):
+                if stuck in acts and 0 < remain <= len(acts[stuck]):
                     a = acts[stuck][len(acts[stuck]) - remain]
                 what = "(e) round %d cannot be replayed on HLane.gstep: stopped after %d of %d actions" % (rnd, done, n)
                 if a is not None:
@@ -431,95 +505,220 @@ def replay_runs(ctx, runs, sites, every):
                         ", dq_state of lane %d = %#x" % (a["wl"], a["st"]) if a["st"] >= 0 else "",
                         ", entry code %d" % a["ent"].v if a["ent"].v not in (None, -1) else "")
                     what += "; the model has the thread at stack height %d, top frame %s of lane %d" % (mlen, PCNAME.get(mpc, mpc), mlane)
-                mism.append({"what": what, "run": tag, "round": rnd})
+                mm(what, P, run=tag, round=rnd)
                 continue
             if bad:
-                mism.append({"what": "(e) inv_b is false on %d replayed states of round %d" % (bad, rnd), "run": tag})
+                mm("(e) inv_b is false on %d replayed states of round %d (the replay machinery is inconsistent with its proofs)" % (bad, rnd), P, run=tag, round=rnd)
             if not idle:
-                mism.append({"what": "(e) round %d replayed, but a model thread is not idle at the end" % rnd, "run": tag})
+                mm("(e) round %d replayed, but a model thread is not idle at the end" % rnd, P, run=tag, round=rnd)
             for (l, p, dep, role, pr, fb), (w, ln, nid, nst, fifo, rq) in zip(rows, per):
                 d = run.lanes[rnd * 100 + l]
                 if w != d["final"] or ln != 0 or nid != nst or not fifo or rq != 0:
-                    mism.append({"what": "(e) round %d replayed, but lane %d ends in the model with dq_state %#x (recorded %#x), %d entries, %d of %d items started, in id order: %d, in the root queue: %d" % (
-                        rnd, l, w, d["final"], ln, nst, nid, fifo, rq), "run": tag})
+                    mm("(e) round %d replayed, but lane %d ends in the model with dq_state %#x (recorded %#x), %d entries, %d of %d items started, in id order: %d, in the root queue: %d" % (
+                        rnd, l, w, d["final"], ln, nst, nid, fifo, rq), P, run=tag, round=rnd)
                 bump("items run in the replays", nst)
     return mism, dist, total
 
 
+QUICK_REPLAYED_RUNS = 4      # of the 6 runs of the quick tier (all runs in the thorough tier)
+QUICK_INV_EVERY = 8          # quick tier: inv_b on every 8th replayed state and on the last one (thorough: on every state)
+
+
 def plan(ctx):
     seeds = [ctx.seed * 100 + i for i in range(6 if ctx.tier == "quick" else 30)]
-    return [(sd, 8 if ctx.tier == "quick" else 12, [0, 200, 400][i % 3], 1 if ctx.tier == "quick" else 1 + i % 3) for i, sd in enumerate(seeds)]
+    return [{"seed": sd, "rounds": 8 if ctx.tier == "quick" else 12, "permille": [0, 200, 400][i % 3],
+             "scale": 1 if ctx.tier == "quick" else 1 + i % 3} for i, sd in enumerate(seeds)]
 
 
-def run_one(exe, seed, rounds, pm, scale):
-    r = common.run([exe, str(seed), str(rounds), str(pm), str(scale)], timeout=300)
+def tag_of(P):
+    return "seed=%d rounds=%d perturb=%d scale=%d" % (P["seed"], P["rounds"], P["permille"], P["scale"])
+
+
+def run_one(exe, P, notes=None, limit=300):
+    """one harness process; a wall-clock limit never decides by itself: on expiry once more with ten times the limit (nothing
+    else of this check runs meanwhile); the harness' own watchdog is progress-based"""
+    cmd = [exe, str(P["seed"]), str(P["rounds"]), str(P["permille"]), str(P["scale"])]
+    r = common.run(cmd, timeout=limit)
+    if r.returncode == 124:
+        if notes is not None:
+            notes.append("harness run %s hit its %d s limit (load?): re-run with %d s" % (tag_of(P), limit, 10 * limit))
+        r = common.run(cmd, timeout=10 * limit)
     return r
 
 
-def correspond(ctx):
-    common.ensure_build()
-    exe, msg = common.build_harness(HARNESS[0], HARNESS[1], whitebox=True)
-    if exe is None:
-        return {"mismatches": [{"what": "harness build failed", "detail": msg}], "failures": [], "evaluations": 0}
-    sites = site_table()
-    all_cases, mism, fails, dist, samples, runs = [], [], [], {}, [], []
-    for (seed, rounds, pm, scale) in plan(ctx):
-        tag = "seed=%d rounds=%d perturb=%d scale=%d" % (seed, rounds, pm, scale)
-        r = run_one(exe, seed, rounds, pm, scale)
-        if r.returncode != 0:
-            fails.append({"key": "C03:hlane:crash", "what": "stress client died (rc %s) with %s: %s" % (r.returncode, tag, (r.stderr or "")[-300:]),
-                          "seed": seed, "rounds": rounds, "permille": pm, "scale": scale})
-            continue
-        run = Run(r.stdout)
-        if run.K is None or not run.rounds:
-            mism.append({"what": "harness produced no records", "run": tag})
-            continue
-        cases, mm, ff, dd = analyse(run, sites, tag)
-        for f in ff:
-            f.update({"seed": seed, "rounds": rounds, "permille": pm, "scale": scale})
-            if not any(x["key"] == f["key"] for x in fails):
-                fails.append(f)
-        mism += mm
-        for k, v in dd.items():
-            dist[k] = dist.get(k, 0) + v
-        all_cases += [c + (tag,) for c in cases]
-        if not ff:
-            runs.append((tag, run))
-        samples.append("%s: %d lanes in %d forests, %d items, %d word transitions" % (
-            tag, len(run.lanes), len(run.rounds), sum(x["items"] for x in run.rounds.values()), len(cases)))
-    keys, bad = coq_judge("c03_hlane_words", all_cases) if all_cases else ([], set())
+def judge_run(ctx, exe, sites, P, notes, with_replay, every):
+    """run the harness once with parameters P and judge everything: returns dict(cases, mismatches, failures, distribution,
+    run | None, sample, rounds, replayed actions)"""
+    tag = tag_of(P)
+    out = {"cases": [], "mism": [], "fails": [], "dist": {}, "run": None, "sample": None, "rounds": 0}
+    r = run_one(exe, P, notes)
+    if r.returncode != 0:
+        out["fails"].append(dict({"key": "C03:hlane:crash" if r.returncode != 124 else "C03:hlane:hang",
+                                  "what": "stress client %s with %s: %s" % ("died (rc %s)" % r.returncode if r.returncode != 124 else
+                                                                           "did not finish within ten times its limit", tag, (r.stderr or "")[-300:])}, **P))
+        return out
+    run = Run(r.stdout)
+    if run.K is None or not run.rounds:
+        out["mism"].append(dict({"what": "harness produced no records (empty or truncated output)", "cls": "out", "run": tag}, **P))
+        return out
+    out["rounds"] = len(run.rounds)
+    if len(run.rounds) != P["rounds"] and all(x["idle"] for x in run.rounds.values()):
+        out["mism"].append(dict({"what": "harness output truncated: %d of %d rounds reported" % (len(run.rounds), P["rounds"]), "cls": "out", "run": tag}, **P))
+    if not any(run.per.values()):
+        out["mism"].append(dict({"what": "no atomic operation recorded (hook compiled out?)", "cls": "out", "run": tag}, **P))
+    cases, mm, ff, dd = analyse(run, sites, tag)
+    for f in ff:
+        f.update(P)
+    for m in mm:
+        m.update(P)
+        m.setdefault("cls", m["what"][1] if m["what"].startswith("(") else "x")
+    out.update({"cases": [c + (tag,) for c in cases], "mism": mm + out["mism"], "fails": ff, "dist": dd, "run": run})
+    out["sample"] = "%s: %d lanes in %d forests, %d items, %d word transitions" % (
+        tag, len(run.lanes), len(run.rounds), sum(x["items"] for x in run.rounds.values()), len(cases))
+    return out
+
+
+def word_mismatches(ctx, all_cases, notes, P_of_tag):
+    keys, bad = coq_judge(ctx, all_cases, notes) if all_cases else ([], set())
+    mism = []
     for c in all_cases:
-        if c[:7] in bad and len([m for m in mism if m.get("tie") == "word_step"]) < 12:
-            mism.append({"tie": "word_step", "what": "(a) %s on lane %d: the library wrote %#x over %#x, HLane.word_step %d %d %d %d %d gives another word" % (
-                CODE_NAME[c[0]], c[7]["lane"], c[6], c[5], c[0], c[1], c[2], c[3], c[4]), "where": c[7], "run": c[8]})
-    rmism, rdist, ractions = replay_runs(ctx, runs if ctx.tier != "quick" else runs[:4], sites, 8 if ctx.tier == "quick" else 1)
-    mism += rmism
-    dist["replay"] = rdist
-    samples.append("whole-round replay: %s" % ", ".join("%s=%d" % kv for kv in sorted(rdist.items())))
-    return {"evaluations": len(all_cases) + ractions, "distinct_nontrivial": len(keys) + rdist.get("rounds replayed", 0),
-            "rule": "random forests of serial queues (harness/c03_hlane.c), dispatch_async_f floods with perturbation 0/20/40 %; every successful "
-                    "dq_state transition of every lane = HLane.word_step (the generated body with the model's arguments) of its old word, "
-                    "evaluated in Coq; per-lane chains init -> final; callouts exclusive per bottom, exactly once, per-lane tail-exchange order; "
-                    "per-thread lock nesting along target edges; lanes handed down to their target; whole rounds replayed strictly on the global "
-                    "model HLane.gstep (every recorded operation an enabled model step with the recorded outcome, inv_b on the replayed states); "
-                    "evaluations = word transitions judged + model actions replayed, distinct = distinct (program point, arguments, old, new) "
-                    "tuples + rounds replayed",
-            "samples": samples[:8], "distribution": dist, "mismatches": mism[:30], "failures": fails[:20]}
+        if c[:7] in bad and len(mism) < 12:
+            mism.append(dict({"tie": "word_step", "cls": "a", "what": "(a) %s on lane %d: the library wrote %#x over %#x, HLane.word_step %d %d %d %d %d gives another word" % (
+                CODE_NAME[c[0]], c[7]["lane"], c[6], c[5], c[0], c[1], c[2], c[3], c[4]), "where": c[7], "run": c[8]}, **P_of_tag.get(c[8], {})))
+    return keys, mism
+
+
+def correspond(ctx):
+    notes = []
+    try:
+        ok_build = common.ensure_build()
+        exe, msg = common.build_harness(HARNESS[0], HARNESS[1], whitebox=True)
+        if exe is None:
+            return {"mismatches": [{"what": "harness build failed", "cls": "build", "detail": msg}], "failures": [], "evaluations": 0}
+        sites = site_table(ctx)
+        all_cases, mism, fails, dist, samples, runs, P_of_tag = [], [], [], {}, [], [], {}
+        nrounds = 0
+        quick = ctx.tier == "quick"
+        for P in plan(ctx):
+            j = judge_run(ctx, exe, sites, P, notes, False, 0)
+            P_of_tag[tag_of(P)] = P
+            for f in j["fails"]:
+                if not any(x["key"] == f["key"] for x in fails):
+                    fails.append(f)
+            mism += j["mism"]
+            for k, v in j["dist"].items():
+                dist[k] = dist.get(k, 0) + v
+            all_cases += j["cases"]
+            nrounds += j["rounds"]
+            if j["run"] is not None and not j["fails"]:
+                runs.append((tag_of(P), P, j["run"]))
+            if j["sample"]:
+                samples.append(j["sample"])
+        keys, wm = word_mismatches(ctx, all_cases, notes, P_of_tag)
+        mism += wm
+        every = QUICK_INV_EVERY if quick else 1
+        chosen = runs[:QUICK_REPLAYED_RUNS] if quick else runs
+        rmism, rdist, ractions = replay_runs(ctx, chosen, sites, every, notes)
+        mism += rmism
+        rdist["runs replayed"] = len(chosen)
+        rdist["runs recorded without a failure"] = len(runs)
+        dist["replay"] = rdist
+        samples.append("whole-round replay: %s" % ", ".join("%s=%d" % kv for kv in sorted(rdist.items())))
+        # floors: what was actually measured, not what was requested
+        if not fails:
+            if nrounds == 0:
+                mism.append({"what": "no round was recorded at all", "cls": "floor"})
+            elif not all_cases:
+                mism.append({"what": "no dq_state transition was recorded in %d rounds" % nrounds, "cls": "floor"})
+            elif rdist.get("rounds replayed", 0) == 0 and not rmism:
+                mism.append({"what": "no round was replayed on the model", "cls": "floor"})
+        dist["rounds recorded"] = nrounds
+        return {"evaluations": len(all_cases) + ractions, "distinct_nontrivial": len(keys) + rdist.get("rounds replayed", 0),
+                "rule": "random forests of serial queues (harness/c03_hlane.c), dispatch_async_f floods with perturbation 0/20/40 %%; every successful "
+                        "dq_state transition of every lane = HLane.word_step (the generated body with the model's arguments) of its old word, "
+                        "evaluated in Coq; per-lane chains init -> final; callouts exclusive per bottom, exactly once, per-lane tail-exchange order; "
+                        "per-thread lock nesting along target edges; lanes handed down to their target; whole rounds replayed strictly on the global "
+                        "model HLane.gstep (every recorded operation must be an enabled model step with the recorded outcome: trace inclusion, a "
+                        "run-time tie) — in the quick tier the first %d of the 6 recorded runs are replayed and inv_b is evaluated on every %dth "
+                        "replayed state and the last one (thorough: all runs, every state); inv_b is true on reachable states by theorem, so its "
+                        "evaluation is only a consistency check of the replay machinery; evaluations = word transitions judged + model actions "
+                        "actually replayed, distinct = distinct (program point, arguments, old, new) tuples + rounds actually replayed" % (
+                            QUICK_REPLAYED_RUNS, QUICK_INV_EVERY),
+                "samples": samples[:8], "distribution": dist, "mismatches": mism[:30], "failures": fails[:20], "notes": notes}
+    finally:
+        cleanup(ctx)
+
+
+def _entries(obj):
+    """the recorded failures and broken ties of this part, unwrapped from the driver's / lanes.merge's envelopes"""
+    fs = [dict(f, _kind="failure") for f in obj.get("failures", [])]
+    for b in obj.get("broken", []):
+        d = b.get("detail") if isinstance(b, dict) else None
+        if isinstance(d, dict) and "what" in d:
+            fs.append(dict(d, _kind="tie"))
+        else:
+            fs.append({"what": str(b)[:600], "_kind": "other"})
+    return fs
 
 
 def replay(ctx, obj):
-    common.ensure_build()
-    exe, msg = common.build_harness(HARNESS[0], HARNESS[1], whitebox=True)
-    sites = site_table()
-    for f in obj.get("failures", []):
-        print("recorded:", f.get("what"))
-        if "seed" in f:
-            r = run_one(exe, f["seed"], f.get("rounds", 8), f.get("permille", 200), f.get("scale", 1))
-            if r.returncode != 0:
-                print("  re-run: stress client died, rc", r.returncode)
-                continue
-            cases, mm, ff, dd = analyse(Run(r.stdout), sites, "replay")
-            print("  re-run:", "; ".join(x["what"] for x in ff)[:800] or "no failure this time (schedule dependent)")
-    for b in obj.get("broken", []):
-        print("no longer checks:", b)
-    return 1
+    """re-run every recorded run (same seed, round count, perturbation, scale) on the current build and re-judge it with all
+    layers (a)-(e); schedules differ between runs, so each recorded run gets up to three attempts.
+    rc 1: a recorded failure (same key) or broken tie (same class) shows again; 0: every executable entry was re-run and none
+    shows again; 2: nothing could be executed (proof / build / evaluation entries: only a full ./check re-establishes them)"""
+    notes = []
+    try:
+        entries = _entries(obj)
+        todo = {}
+        unexec = []
+        for e in entries:
+            if all(k in e for k in ("seed", "rounds", "permille", "scale")):
+                P = {k: int(e[k]) for k in ("seed", "rounds", "permille", "scale")}
+                todo.setdefault(tuple(sorted(P.items())), (P, []))[1].append(e)
+            else:
+                unexec.append(e)
+        for e in unexec:
+            print("cannot be re-executed by itself (only a full ./check re-establishes it): %s" % e.get("what", "")[:400])
+        if not todo:
+            print("nothing to execute")
+            return 2
+        ok, msg = common.ensure_build()
+        exe, bmsg = common.build_harness(HARNESS[0], HARNESS[1], whitebox=True) if ok else (None, msg)
+        if exe is None:
+            print("the harness cannot be built against the current tree: %s" % (bmsg or "")[-400:])
+            return 2
+        sites = site_table(ctx)
+        reproduced = 0
+        for key, (P, es) in sorted(todo.items()):
+            want_keys = {e["key"] for e in es if e["_kind"] == "failure" and "key" in e}
+            want_cls = {e.get("cls") or (e["what"][1] if e.get("what", "").startswith("(") else "x") for e in es if e["_kind"] == "tie"}
+            for e in es:
+                print("recorded [%s]: %s" % (tag_of(P), e.get("what", "")[:300]))
+            hit = None
+            for attempt in range(3):
+                j = judge_run(ctx, exe, sites, P, notes, True, 1)
+                mm = list(j["mism"])
+                if j["run"] is not None:
+                    _, wm = word_mismatches(ctx, j["cases"], notes, {tag_of(P): P})
+                    mm += wm
+                    if not j["fails"]:
+                        rm, _, _ = replay_runs(ctx, [(tag_of(P), P, j["run"])], sites, 1, notes)
+                        mm += rm
+                got_f = [f for f in j["fails"] if f.get("key") in want_keys or f.get("key") in ("C03:hlane:crash", "C03:hlane:hang")]
+                got_m = [m for m in mm if m.get("cls") in want_cls]
+                # a recorded tie that now shows as a failure of the oracle (or the other way round) is the same input failing
+                if not got_f and not got_m and (j["fails"] or mm) and attempt == 2:
+                    got_f, got_m = j["fails"], mm
+                if got_f or got_m:
+                    hit = (got_f + got_m)[0]
+                    break
+            if hit is not None:
+                reproduced += 1
+                print("  REPRODUCES (attempt %d): %s" % (attempt + 1, hit.get("what", "")[:500]))
+            else:
+                print("  does not reproduce: %s re-run 3 times on the current build, all layers (a)-(e) pass" % tag_of(P))
+        for n in notes:
+            print("note:", n)
+        return 1 if reproduced else 0
+    finally:
+        cleanup(ctx)
